@@ -130,12 +130,16 @@ def solver(spec):
 
 
 def storage(X, kind):
-    """kind: denseF | denseC | csc | csc64 | csc_unsorted"""
+    """kind: denseF | denseC | csc | csc64 | csc_unsorted | csc_zeros"""
     X = np.asarray(X, dtype=np.float64)
     if kind == "denseF":
         return np.asfortranarray(X)
     if kind == "denseC":
         return np.ascontiguousarray(X)
+    if kind == "csc_zeros":                       # every entry stored, zeros included (what X.multiply(mask) / X[:, j] = 0 leave behind)
+        M = sp.csc_matrix(np.ones_like(X))
+        M.data = np.asfortranarray(X).ravel(order="F").copy()
+        return M
     M = sp.csc_matrix(X)
     if kind == "csc":
         return M
